@@ -160,7 +160,9 @@ class QueueDriver(InstructionGenerator):
         shake = rng.random() < 0.10
         # now and then everybody who stands idle away from the station sets off at once: vehicles that start from the same
         # place arrive in the same step and join the queue with the same time stamp
-        rush = rng.random() < (0.5 if int(sim.sim_time) == 0 else 0.06)
+        t0 = int(environment.config.sim.start_time)
+        late_evening = t0 % 86400 > 86400 - 10 * int(sim.sim_timestep_duration_seconds)      # a run that begins minutes before midnight
+        rush = rng.random() < ((1.0 if late_evening else 0.5) if int(sim.sim_time) == t0 else 0.06)
         for v in sim.get_vehicles():
             act = type(v.vehicle_state).__name__
             r = rng.random()
@@ -417,9 +419,11 @@ def gen_queue_world(rng: random.Random, n_steps: int, variant: Optional[str] = N
                 v["mech"] = "toyota_corolla"
                 v["soc"] = rng.choice([0.05, 0.3, 0.6, 0.97])
     w["variant"] = variant
-    if rng.random() < 0.3:
+    if rng.random() < 0.5:
         # the run begins shortly before midnight: vehicles that joined the queue yesterday wait beside those that join today
-        w["start"] = 86400 - dt * rng.randint(4, 30)
+        # (two steps before it: of the vehicles that set off together at the start, those from round the corner join the queue
+        # at 23:59, those from further away at 00:00)
+        w["start"] = 86400 - dt * rng.choice([2, 2, 2, 3, 5])
         w["end"] = w["start"] + dt * n_steps
     return w
 
